@@ -412,6 +412,8 @@ struct World<B: Backend> {
     shared: Vec<Option<B::Sh>>,
     weaks: Vec<Option<B::Wk>>,
     subs: Vec<Option<SubR<B>>>,
+    /// handles obtained from an upgrade() the model did not expect (C19 runs)
+    extra: Vec<B::Sh>,
     m: Model,
     step: usize,
 }
@@ -437,7 +439,7 @@ impl<B: Backend> World<B> {
     }
 
     fn new(cfg: &Cfg, m: Model) -> Self {
-        let mut w = World { cfg: cfg.clone(), unique: None, shared: vec![], weaks: vec![], subs: vec![], m, step: 0 };
+        let mut w = World { cfg: cfg.clone(), unique: None, shared: vec![], weaks: vec![], subs: vec![], extra: vec![], m, step: 0 };
         if cfg.start_unique {
             let o = if cfg.use_default { B::ob_default() } else { B::ob_new(B::V::mk(cfg.init_code)) };
             for reset in &cfg.pre_subs {
@@ -529,9 +531,14 @@ impl<B: Backend> World<B> {
         // counts
         let live_handle = (0..self.m.shared.len()).find(|h| self.m.shared[*h]);
         let subs_alive = self.m.live_subs();
-        if let Some(h) = live_handle {
-            let c = B::sh_counts(self.handle(h, held));
-            let exp = Counts { observable: self.m.owners(), subscriber: subs_alive, strong: self.m.owners() + subs_alive, weak: self.m.live_weaks() };
+        let any_handle: Option<&B::Sh> = match live_handle {
+            Some(h) => Some(self.handle(h, held)),
+            None => self.extra.first(),
+        };
+        if let Some(ho) = any_handle {
+            let c = B::sh_counts(ho);
+            let owners = self.m.owners() + self.extra.len();
+            let exp = Counts { observable: owners, subscriber: subs_alive, strong: owners + subs_alive, weak: self.m.live_weaks() };
             if c != exp {
                 return Err(viol("C19", step, format!("counts/{}", B::NAME), format!("counts {:?}, expected {:?}", c, exp)));
             }
@@ -787,6 +794,17 @@ impl<B: Backend> World<B> {
                 let got = B::wk_upgrade(self.weaks[w as usize].as_ref().unwrap());
                 let exp = self.m.shared.iter().any(|a| *a);
                 if got.is_some() != exp {
+                    if self.cfg.prop == "C19" {
+                        // C03 judges the answer; the count oracles go on with
+                        // the handle population as it actually is.
+                        if let Some(o) = got {
+                            // not index-addressable by later tokens, but it is
+                            // a live clone and must be counted
+                            self.extra.push(o);
+                        }
+                        st.hit("upgrade_answer_taken_as_is_for_counts");
+                        return Ok(());
+                    }
                     return Err(viol(self.p("C03"), step, "upgrade", format!("upgrade() returned Some = {}, but {} owner(s) exist", got.is_some(), self.m.owners())));
                 }
                 if let Some(o) = got {
